@@ -2,6 +2,7 @@
 //! into a scratch copy of the repository; see /verif/lib/inject.py).
 pub mod vmap;
 pub mod c18;
+pub mod hspec;
 
 use crate::prayer_times::Prayer;
 
